@@ -170,6 +170,23 @@ o P2 240114#KT todo in memo @c1
 
 - 240115#KU note in mem
 """,
+    "loose.zo": f"""# LOOSE
+
+- 240117#KW loose top note
+
+{H2R} Part
+
+- 240117#KX note in part
+o P1 240117#KY todo in part @c1
+
+{H3R} Sub
+
+- 240118#KZ note in sub
+
+{H2R} Beta
+
+x 240118#L0 done in the second headless h2
+""",
     "jazz.zo": """# JAZZ
 
 x 240116#KV done in jazz
